@@ -19,6 +19,8 @@ def build(rng, profile="full", **kw):
     sensible = profile == "sensible"
     blocks = []
     has_itp = layout != "ff"
+    # real force fields use the same atom names in many residues (BB, SC1): then only the residue name tells them apart
+    shared_prefix = "X" if rng.random() < kw.get("p_shared_names", 0.2) else None
     for nm in names:
         if layout == "ff":
             syntax = "ff"
@@ -32,7 +34,7 @@ def build(rng, profile="full", **kw):
         elif has_itp and syntax == "ff" and not kw.get("unrestricted_ff_sections"):
             sections = ["position_restraints"]      # edge-neutral (see DESIGN C13/C14 notes)
         b = FF.gen_block(rng, nm, syntax, max_atoms=kw.get("max_atoms", 5), sections=sections,
-                         nrexcl=None if kw.get("mixed_nrexcl", True) else 1)
+                         nrexcl=None if kw.get("mixed_nrexcl", True) else 1, prefix=shared_prefix)
         if sensible or (syntax == "itp"):
             _path_interactions(rng, b, pairs=not sensible)
         if syntax == "itp":
